@@ -1727,7 +1727,8 @@ class Dict(Opcode):
                 f"Number of keys ({len(keys)}) and values ({len(values)}) for DICT do not match"
             )
 
-        interpreter.stack.append(ast.Dict(keys=reversed(keys), values=reversed(values)))
+        # real lists, not one-shot `reversed` iterators: the node is read more than once (unparse, analyses)
+        interpreter.stack.append(ast.Dict(keys=list(reversed(keys)), values=list(reversed(values))))
 
 
 if sys.version_info < (3, 9):
